@@ -188,4 +188,7 @@ C16_OK(o) ==
              /\ (fr > Len(ideal) => refusedIdeal)
              /\ m <= Len(L) /\ SubSeq(L, 1, m) = SubSeq(ideal, 1, m)
              /\ \A i \in 1..m: Observes(o.log[i])
+             \* a children deletion has no rollback: the exception propagates and no further hook fires -- in particular
+             \* _post_detach_children must not announce a completion that did not happen
+             /\ (o.k = "dc" => Len(L) = fr)
 =============================================================================
